@@ -29,6 +29,67 @@ mut("mustpass", "P03b", "C01", "internal/pfcp/node.go",
 	}
 """, "RemoveQER forgets the id before the driver removed the rule (no violation under the fault model: removes withdraw) - expected quiet")
 
+mut("mutants", "M05", "C01", "internal/pfcp/node.go",
+"""	for id := range n.sess {
+		n.DeleteSess(id)
+	}
+	n.sess = make(map[uint64]struct{})""",
+"""	n.sess = make(map[uint64]struct{})""", "RemoteNode.Reset forgets its sessions without closing them")
+mut("mutants", "M14", "C04", "internal/pfcp/node.go",
+"""	if lSeid > uint64(len(n.sess)) {
+		return nil, errors.Errorf("Sess: sess not found (lSeid:%#x)", lSeid)
+	}""",
+"""	if lSeid > uint64(len(n.sess))+1 {
+		return nil, errors.Errorf("Sess: sess not found (lSeid:%#x)", lSeid)
+	}""", "LocalNode.Sess: off-by-one in the table bound")
+mut("mutants", "M15", "C04", "internal/pfcp/node.go",
+"""		s.LocalID = n.free[last]
+		n.free = n.free[:last]""",
+"""		s.LocalID = n.free[0]
+		n.free = n.free[:last]""", "NewSess reuses the first free id but drops the last one from the free list")
+mut("mutants", "M16", "C04", "internal/pfcp/node.go",
+"""	n.sess[i] = nil
+	n.free = append(n.free, lSeid)""",
+"""	n.free = append(n.free, lSeid)""", "DeleteSess releases the SEID without clearing the slot")
+mut("mutants", "M19", "C05", "internal/pfcp/node.go",
+"""	_, ok := n.sess[lSeid]
+	if !ok {
+		return nil
+	}
+	delete(n.sess, lSeid)
+	usars, err := n.local.DeleteSess(lSeid)""",
+"""	delete(n.sess, lSeid)
+	usars, err := n.local.DeleteSess(lSeid)""", "RemoteNode.DeleteSess deletes sessions it does not own")
+mut("mutants", "M20", "C05", "internal/pfcp/node.go",
+"""		if s.RemoteID == rSeid && s.rnode.addr.String() == addr.String() {""",
+"""		if s.RemoteID == rSeid {""", "RemoteSess ignores the peer address")
+mut("mutants", "M35", "C11", "internal/pfcp/node.go",
+"""	seq := info.SEQN
+	info.SEQN++""",
+"""	seq := info.SEQN
+	info.SEQN += 2""", "URRSeq skips a sequence number")
+mut("mutants", "M36", "C12", "internal/pfcp/node.go",
+"""		urrInfo.refPdrNum--
+		if urrInfo.refPdrNum == 0 {""",
+"""		if urrInfo.refPdrNum == 1 {""", "diassociateURR never decrements the reference count")
+mut("mutants", "M37", "C12", "internal/pfcp/node.go",
+"""	// indicates usage report being reported for a URR due to the removal of the URR
+	for i := range usars {
+		usars[i].USARTrigger.Flags |= report.USAR_TRIG_TERMR
+	}""",
+"""	// indicates usage report being reported for a URR due to the removal of the URR
+	for i := range usars {
+		usars[i].USARTrigger.Flags |= report.USAR_TRIG_IMMER
+	}""", "RemoveURR flags the final report IMMER instead of TERMR")
+mut("mutants", "M38", "C13", "internal/pfcp/node.go",
+"""	default:
+		s.log.Debugf("q[%d](len:%d) is full, drop it", pdrid, len(q))
+	}""",
+"""	default:
+		<-q
+		q <- pkt
+	}""", "Push displaces the oldest packet when the queue is full")
+
 if __name__ == "__main__":
     for kind, mid, prop, file, old, new, desc in M:
         src = open("/repo/" + file).read()
